@@ -350,7 +350,24 @@ def structural_ignore(repo):
     return out
 
 
-STRUCTURAL = [structural_ignore]
+_SEARCH_MODULES = ('jedi/inference/references.py', 'jedi/file_io.py', 'jedi/api/project.py')
+
+
+def structural_search_stateless(repo):
+    """every search walks the directory and reads each .gitignore itself: the modules on the way from
+    Project.search to the file list hold no process-global mutable store (a memo of ignore rules or of a file list
+    would make a later search honour the rules / the files of an earlier one)"""
+    from pyvc import inventory as inv
+    from contracts import c08 as _c08
+    found = [f for f in inv.global_mutable_state(repo) if f[0] in _SEARCH_MODULES]
+    reg = {k for k in _c08.REGISTERED_GLOBAL_STATE if k[0] in _SEARCH_MODULES}
+    return inv.compare(found, reg, lambda x: (x[0], x[1], x[2]), 'frame', 'search-global-state',
+                       'the ignore rules and the file list of a project search are recomputed from the disk on every '
+                       'search: no process-global mutable store in %s' % ', '.join(_SEARCH_MODULES),
+                       'registered global state still exists')
+
+
+STRUCTURAL = [structural_ignore, structural_search_stateless]
 
 
 def _standin(repo, seed, tier):
